@@ -585,7 +585,7 @@ pub fn run(ctx: &Ctx) -> Report {
     rep.set("exhaustive_scope", "S1, S2, S3 are enumerated completely within the stated bounds; S4 is supplementary (seeded) and outside the exhaustive claim");
     rep.set(
         "rule",
-        "lock-step enumeration: alphabet = 31 trigger words W0..W30 (7 bytes; W_k ends a piece at levels 0..=k), Z (7 zero bytes), U (roll = 0xFFFFFFFF), F (filler), bytes 00 and 01; S1 = all sequences of length <=3 from new() and zero-prefix starts; S2 = sym1^c1 sym2^c2 [sym3^c3] with every count 1..66 on the way (one-slice re-feed at counts {1,2,31,32,33,63,64,65,66}); S3 = all byte strings over {00,01,FF} up to the tier length, every constant byte and short pattern repeated to every length (on a fresh and on two kinds of reused generator: all 31 contexts populated by an earlier input, or an earlier input digested under a small declared size; then reset()); S1 also from reused generators; forms rotate over update/update_by_iter/update_by_byte/+=slice/+=byte; every step compares finalize, finalize_without_truncation, finalize_raw::<false,64,32>, input_size and the small-size warning with the declarative reference. A case = one prefix; all are distinct by construction; non-trivial = at least one byte fed.",
+        "lock-step enumeration: alphabet = 31 trigger words W0..W30 (7 bytes; W_k ends a piece at levels 0..=k), Z (7 zero bytes), U (roll = 0xFFFFFFFF), F (filler), bytes 00 and 01, and five corner words (roll+1 = the largest multiple of 3, 0xFFFFFFFC, 3, 6, and 0xBFFFFFFF just below 3*2^30); S1 = all sequences of length <=3 from new() and zero-prefix starts; S2 = sym1^c1 sym2^c2 [sym3^c3] with every count 1..66 on the way (one-slice re-feed at counts {1,2,31,32,33,63,64,65,66}); S3 = all byte strings over {00,01,FF} up to the tier length, every constant byte and short pattern repeated to every length (on a fresh and on two kinds of reused generator: all 31 contexts populated by an earlier input, or an earlier input digested under a small declared size; then reset()); S1 also from reused generators; forms rotate over update/update_by_iter/update_by_byte/+=slice/+=byte; every step compares finalize, finalize_without_truncation, finalize_raw::<false,64,32>, input_size and the small-size warning with the declarative reference. A case = one prefix; all are distinct by construction; non-trivial = at least one byte fed.",
     );
     rep.assume("refmodel::ctph is ssdeep 2.14.1 (bound to 472 libfuzzy vectors and two multi-GiB libfuzzy vectors by the self-test on every run)");
     rep.assume("zero-prefix starts use hook H1 (validated against really feeding zeros at the start of this run)");
